@@ -333,7 +333,7 @@ func ruleREG3(p *Program) *RuleResult {
 		}
 		break
 	}
-	r.floor("loops", 6)
+	r.floor("loops", 3)
 	return r
 }
 
@@ -452,8 +452,8 @@ func ruleREG4(p *Program) *RuleResult {
 			}
 		}
 	}
-	r.floor("oneof_lookups", 6)
-	r.floor("typed_lookups", 3)
+	r.floor("oneof_lookups", 3)
+	r.floor("typed_lookups", 1)
 	return r
 }
 
@@ -599,7 +599,7 @@ func ruleREG5(p *Program) *RuleResult {
 			r.bad(key, short(fn)+" does not read the populated member reported by WhichOneof", p.pos(fn.Pos()), "unwrap must return the wrapped message")
 		}
 	}
-	r.floor("wrappers", 4)
+	r.floor("wrappers", 2)
 	return r
 }
 
